@@ -31,6 +31,7 @@ C_LINE = Form("line", "line", "//")
 C_BLOCK = _c_block()
 C_BLOCK_STAR = _c_block("block-star", "/*", cont=" * ")
 C_DOC_BLOCK = _c_block("doc-block", "/**", cont=" * ")
+C_BLOCK_2STAR = _c_block("block-2star", "/**", cont=" ** ")      # banner style: only the first star of a line is decoration
 HASH = Form("hash", "line", "#")
 XML_C = Form("xml", "block", "<!--", "-->", forbid=("--",), family="html")
 
@@ -41,7 +42,10 @@ LANGS = {
     "bash": dict(suffixes=["sh", "bash"], forms=[HASH], code=["x=1", "echo hi", "y=$((x + 1))"],
                  decoys=["s%d='<block name=\"decoy\">'", 'echo "</block>" # %d']),
     "c": dict(suffixes=["c"], forms=[C_LINE, C_BLOCK, C_BLOCK_STAR, C_DOC_BLOCK], code=C_CODE, decoys=C_DECOY),
-    "cpp": dict(suffixes=["cc", "cpp", "h"], forms=[C_LINE, C_BLOCK, C_BLOCK_STAR, C_DOC_BLOCK, Form("doc-line", "line", "///")], code=C_CODE, decoys=C_DECOY),
+    "cpp": dict(suffixes=["cc", "cpp", "h"], forms=[C_LINE, C_BLOCK, C_BLOCK_STAR, C_DOC_BLOCK, Form("doc-line", "line", "///"), C_BLOCK_2STAR],
+                code=C_CODE,
+                decoys=C_DECOY + ['const char *r%d = R"x(" /* <block name="rawdecoy"> */ " /* </block> */ ")x";',
+                                  'const char *q%d = R"(// <block name="rawline">)";']),
     "c_sharp": dict(suffixes=["cs"], forms=[C_LINE, Form("doc-line", "line", "///"), C_BLOCK, C_BLOCK_STAR, C_DOC_BLOCK],
                     code=["int x = 1;", "var y = x + 2;"],
                     decoys=['string s%d = "<block name=decoy>";', 'string t%d = "</block>";']),
@@ -54,7 +58,7 @@ LANGS = {
                   decoys=[]),
     "html": dict(suffixes=["html", "htm"], forms=[XML_C], code=["<p>text</p>", "<div><span>x</span></div>"],
                  decoys=['<block name="decoy%d"></block>', '<p title="<block name=decoy%d>">x</p>']),
-    "java": dict(suffixes=["java"], forms=[C_LINE, C_BLOCK, C_BLOCK_STAR, C_DOC_BLOCK],
+    "java": dict(suffixes=["java"], forms=[C_LINE, C_BLOCK, C_BLOCK_STAR, C_DOC_BLOCK, C_BLOCK_2STAR],
                  code=["int x = 1;", "int y = x + 2;"],
                  decoys=['String s%d = "<block name=decoy>";', 'String t%d = "</block>";']),
     "javascript": dict(suffixes=["js", "jsx"], forms=[C_LINE, C_BLOCK, C_BLOCK_STAR, C_DOC_BLOCK],
